@@ -445,7 +445,9 @@ func Fixed() [][]CellD {
 
 // ---- hyperlinked cells -------------------------------------------------------
 
-var linkURIs = []string{"http://x", "https://example.com/a;b=m[1]?q=%20:8#f", "file:///tmp/a%20b", "mailto:a@b.c"}
+var linkURIs = []string{"http://x", "https://example.com/a;b=m[1]?q=%20:8#f", "file:///tmp/a%20b", "mailto:a@b.c",
+	// targets that end in a percent sign or a percent escape, and ones full of printf verbs: a URI is data, never a format
+	"https://example.com/q?rate=100%", "https://example.com/My%20Docs%20", "http://h/%s%d%v%%%n%!x"}
 var linkParams = []string{"", "id=1", "id=2", "id=a1:foo=bar"}
 
 // LinkFixed: hand-written hyperlink cases (codecs only).
@@ -470,6 +472,9 @@ func LinkFixed() [][]CellD {
 		{c("世", StyleD{L: u}), c("👩‍🚀", StyleD{L: u, LP: "id=x"}), c("é", StyleD{}), c("]", StyleD{L: v}), c("8", StyleD{L: v}), c(";", StyleD{L: u}), c("\\", StyleD{})},
 		// parameters without a URI are no link
 		{c("a", StyleD{LP: "id=1"}), c("b", StyleD{})},
+		// percent signs at the end of the target and of the parameters
+		{c("s", StyleD{}), c("a", StyleD{L: linkURIs[4]}), c("b", StyleD{}), c("c", StyleD{L: linkURIs[5], LP: "id=50%"}), c("d", StyleD{L: linkURIs[6]}), c("e", StyleD{})},
+		{c("a", StyleD{L: linkURIs[5], Fg: idx(2)})},
 	}
 }
 
